@@ -348,3 +348,146 @@ for _nm in ('_maybe_parse_configurable_reference', '_maybe_parse_macro'):
   c = _parser_contract(_nm, ['C02', 'C03'])
   _alt_clauses(c)
   register(c)
+
+
+# -- containers, values ------------------------------------------------------------------------------
+c = _parser_contract('_maybe_parse_container', ['C02'])
+_alt_clauses(c)
+c.local_kinds = {'values': KList(KVal)}
+
+
+def _opens(t):
+  s = t.fields['string'].e
+  return z3.Or(s == sym.str_lit('{'), s == sym.str_lit('('), s == sym.str_lit('['))
+
+
+c.ensure('fails_exactly_when_the_current_token_is_not_an_opening_bracket',
+         lambda x: x.result.items[0].e == _opens(cur(x.self_old)))
+c.raise_case('bad_separator', 'SyntaxError')
+c.loop(('self._current_token.string != close_bracket', None), [Clause(
+    'cursor_only_moves_forward', lambda x, k: z3.And(
+        synced(x.env.self), gen(x.env.self) == gen(x.self_old),
+        pos(x.env.self) > pos(x.self_old)))],
+       havoc=['self._current_token', 'self.ghost_pos'])
+register(c)
+
+c = _parser_contract('_parse_dict_item', ['C02'])
+c.result = KTuple(KVal, KVal)
+c.modifies_self = ['_current_token', 'ghost_pos']
+c.ensure('consumes_key_colon_value', _moved)
+c.raise_case('missing_colon', 'SyntaxError')
+register(c)
+
+c = _parser_contract('parse_value', ['C02', 'C03'])
+c.result = KVal
+c.modifies_self = ['_current_token', 'ghost_pos']
+c.ensure('some_alternative_consumed_the_value', _moved)
+c.raise_case('no_alternative_applies', 'SyntaxError', when=lambda x: z3.BoolVal(
+    x.exc.origin.startswith('inlined') or x.exc.origin == 'stmt'), ensures=[
+        ('nothing_was_consumed_when_every_alternative_failed', lambda x: z3.Or(
+            z3.BoolVal(x.exc.origin == 'callee'), _unmoved(x)))])
+register(c)
+
+
+# ==== statements (C03, C16) =========================================================================
+def mk_stmt(cls, *args):
+  return sym.ufun('mk_' + cls, *([a.sort() for a in args] + [sym.Val]))(*args)
+
+
+for _cls, _ps in (('BindingStatement', [('scope', KStr), ('selector', KStr), ('arg_name', KStr),
+                                        ('value', KVal), ('location', Location)]),
+                  ('IncludeStatement', [('filename', KVal), ('location', Location)]),
+                  ('BlockDeclaration', [('scope', KStr), ('selector', KStr),
+                                        ('location', Location)]),
+                  ('ImportStatementP', [('module', KStr), ('is_from', KBool),
+                                        ('alias', KOpt(KStr)), ('location', Location)])):
+  _real = 'ImportStatement' if _cls == 'ImportStatementP' else _cls
+  c = Contract('config_parser.py::' + _real + ('#ctor' if _cls == 'ImportStatementP' else ''),
+               ['C03'], kind='assumed')
+  for _p, _k in _ps:
+    c.param(_p, _k)
+  c.result = KVal
+  c.ensure('is_the_tuple_of_its_fields', (lambda cls, ps: lambda x: z3.And(
+      x.result.e == mk_stmt(cls, *[(ps_k.box(sym.coerce(x.a[p], ps_k))) for p, ps_k in ps]),
+      sym.val_truthy(x.result.e)))(_real, _ps))
+  c.raises_only_listed = True
+  c.assumptions.append('NamedTuple construction is field-wise (typing.NamedTuple)')
+  register(c)
+
+# helpers of parse_statement that stay assumed for now (bounded: bC03 / bC16)
+c = _parser_contract('_parse_identifier', ['C03'])
+c.result = KStr
+c.modifies_self = ['_current_token', 'ghost_pos']
+c.ensure('consumes_the_identifier', _moved)
+c.ensure('is_the_current_token_text_and_an_identifier', lambda x: z3.And(
+    x.result.e == cur(x.self_old).fields['string'].e,
+    world.re_match('IDENTIFIER_RE', x.result.e)))
+c.raise_case('not_an_identifier', 'SyntaxError')
+register(c)
+
+c = _parser_contract('_parse_import', ['C03'])
+c.param('keyword', KStr)
+c.param('statement_location', Location)
+c.result = KVal
+c.modifies_self = ['_current_token', 'ghost_pos']
+c.kind = 'assumed'
+c.ensure('consumes_the_statement', _moved)
+c.assumptions.append('_parse_import returns an ImportStatement for the four import forms '
+                     '[bounded: bC03 statements_recovered]')
+register(c)
+
+c = _parser_contract('_parse_binding_block', ['C03', 'C16'])
+c.param('scoped_selector', KStr)
+c.param('block_location', Location)
+c.result = KTuple(KVal, KList(KVal))
+c.modifies_self = ['_current_token', 'ghost_pos', '_within_block']
+c.kind = 'assumed'
+c.ensure('consumes_the_block', lambda x: z3.And(_moved(x), sym.val_truthy(x.result.items[0].e)))
+c.assumptions.append('_parse_binding_block returns the header and its members, each carrying '
+                     'the scope and selector of the header [bounded: bC03 statements_recovered]')
+register(c)
+
+c = _parser_contract('parse_statement', ['C03', 'C16'])
+c.result = KOpt(KVal)
+c.modifies_self = ['_current_token', 'ghost_pos', '_statements_queue', '_within_block']
+c.local_kinds = {'statement': KOpt(KVal), 'bindings': KList(KVal)}
+
+
+def _ends(t):
+  ty = t.fields['type'].e
+  return z3.Or(ty == toktype('NEWLINE'), ty == toktype('DEDENT'), ty == toktype('ENDMARKER'))
+
+
+def _queue(p):
+  return p.fields['_statements_queue']
+
+
+c.ensure('queued_block_members_come_out_first_and_in_order', lambda x: z3.Implies(
+    _queue(x.self_old).len > 0, z3.And(
+        z3.Not(x.result.is_none), x.result.inner.e == _queue(x.self_old).arr[0],
+        _queue(x.self_new).len == _queue(x.self_old).len - 1,
+        pos(x.self_new) == pos(x.self_old))))
+c.ensure('none_only_at_the_end_of_input', lambda x: z3.Implies(
+    x.result.is_none, z3.And(_queue(x.self_old).len == 0,
+                             cur(x.self_new).fields['type'].e == toktype('ENDMARKER'))))
+c.ensure('a_statement_ends_at_a_newline_dedent_or_end_of_input', lambda x: z3.Implies(
+    z3.And(z3.Not(x.result.is_none), _queue(x.self_old).len == 0),
+    z3.Exists([i_], z3.And(pos(x.self_old) <= i_, i_ <= pos(x.self_new),
+                           _ends(TOK(gen(x.self_old), i_)),
+                           z3.Or(i_ == pos(x.self_new),
+                                 z3.And(i_ < pos(x.self_new),
+                                        TOK(gen(x.self_old), i_).fields['type'].e !=
+                                        toktype('ENDMARKER')))))))
+def _block_call(x):
+  ev = [e for e in x.trace if e.get('call') == 'config_parser.py::ConfigParser._parse_binding_block'
+        and 'result' in e]
+  return ev[0] if ev else None
+
+
+c.ensure('block_members_are_queued_in_textual_order_behind_the_header', lambda x: z3.BoolVal(True)
+         if _block_call(x) is None else z3.And(
+             x.result.inner.e == _block_call(x)['result'].items[0].e,
+             _queue(x.self_new).kind.eq(_queue(x.self_new), _block_call(x)['result'].items[1])))
+c.raise_case('malformed_statement', 'SyntaxError')
+c.raise_case('internal', 'AssertionError')
+register(c)
